@@ -1,6 +1,4 @@
 // ---- ghost vocabulary for the byte-wise double array (spec/proof only) ----
-spec fn st_check(s: State) -> u8 { (s.opos_ch.0 & 0xff) as u8 }
-spec fn st_opos(s: State) -> u32 { s.opos_ch.0 >> 8 }
 
 // what the `// SAFETY`-style comments in bytewise.rs claim about the array
 spec fn da_safe(st: Seq<State>) -> bool {
